@@ -6,6 +6,7 @@ package main
 //   seq : sequential call lists on one saved origin
 //   conc: hook-forced schedules of 2..8 concurrent calls (all schedules for 2-3 threads)
 //   pc  : CreateOffer / CreateAnswer from several goroutines on real PeerConnections
+//   recompute: histories that force CreateOffer through its recompute loop (c11_recompute.go)
 
 import (
 	"fmt"
